@@ -22,7 +22,7 @@ RULE = ("one case = one real project directory written the way signac 1.x did (v
         "project / workspace_dir / schema_version; jobs as <workspace>/<id>/signac_statepoint.json + signac_job_document.json "
         "+ files; gzip state point cache; shell history) or the way signac 2 does (.signac/config).  Product of: layout x "
         "schema version {absent, 0, 1, 2, 3, 10}; project names {None, plain, spaces, punctuation/quotes/comma/#/=}; "
-        "workspace_dir {key absent, 'workspace', relative custom, nested custom, custom colliding with an existing empty / "
+        "workspace_dir {key absent, 'workspace', relative custom, nested custom, nested names ENDING in workspace (data/workspace, x/y/workspace), spellings ./workspace and workspace/, custom colliding with an existing empty / "
         "non-empty 'workspace'}; the workspace directory existing or (0 jobs only) never created; v1 cache and shell-history "
         "files present or not; a pre-existing project document or not; 0, 1, 3 or 5 jobs with documents, files and nested "
         "files.  thorough = the whole product, quick = every small class plus a seeded sample.  Observed: exception class "
@@ -44,8 +44,12 @@ LEGACY_VERSIONS = [None, 0, 1]
 WS_OPTS = [  # (workspace_dir key, exists?, collide)
     (None, True, None), ("workspace", True, None), ("ws", True, None), ("data/ws", True, None),
     ("ws", True, "empty"), ("ws", True, "full"),
+    # nested custom names whose LAST component is 'workspace', and other spellings of the default
+    ("data/workspace", True, None), ("x/y/workspace", True, None), ("./workspace", True, None), ("workspace/", True, None),
 ]
-WS_OPTS_EMPTY = [(None, False, None), ("ws", False, None), ("data/ws", False, None)]
+WS_OPTS_EMPTY = [(None, False, None), ("ws", False, None), ("data/ws", False, None),
+                 ("data/workspace", False, None), ("./workspace", False, None)]
+TRICKY_WS = ("data/workspace", "x/y/workspace", "./workspace", "workspace/")
 NJOBS = [0, 1, 3, 5]
 
 
@@ -75,6 +79,16 @@ F17_WITNESS = {"layout": "v1", "ver": 1, "name": "test_project", "ws": "ws", "ws
                "njobs": 0, "cache": False, "hist": False, "predoc": False}
 
 
+def always_quick():
+    """classes every quick run must contain: workspace names that merely END in / spell 'workspace', with jobs."""
+    out = []
+    for w in TRICKY_WS:
+        for ver, njobs, name in [(None, 3, "My Project 2"), (1, 1, "None"), (0, 5, "test_project")]:
+            out.append({"layout": "v1", "ver": ver, "name": name, "ws": w, "ws_exists": True, "collide": None,
+                        "njobs": njobs, "cache": njobs == 3, "hist": njobs == 1, "predoc": njobs == 5})
+    return out
+
+
 def small_class(d):
     return (d["layout"] != "v1" or d["ver"] in (2, 3, 10) or d.get("name") is None
             or (not d["ws_exists"]) or d["collide"] is not None)
@@ -88,7 +102,7 @@ def gen_inputs(tier, rng):
     rest = [d for d in space if not small_class(d)]
     small_legacy = [d for d in small if d["layout"] == "v1" and d["ver"] in (None, 0, 1) and d.get("name") is not None]
     others = [d for d in small if d not in small_legacy]
-    return [F17_WITNESS] + others + rng.sample(small_legacy, 90) + rng.sample(rest, 110)
+    return [F17_WITNESS] + always_quick() + others + rng.sample(small_legacy, 90) + rng.sample(rest, 110)
 
 
 # ------------------------------------------------------------------ building
